@@ -63,6 +63,9 @@ ExplainsGc(cfg, c, r) ==
          [] c.op = "gc3" -> GcOk(c.a.t, 3, r.g)
          \* the sequence is `reps` repetitions of `unit` (never logged verbatim)
          [] c.op = "gc_rep"  -> c.a.reps >= 0 /\ GcRepOk(c.a.unit, c.a.reps, 1, r.g)
+         \* segments unit_i^(m_i * chunk), streamed: up to more than 2^32 symbols in one call
+         [] c.op = "gc_segs"  -> GcSegsOk(c.a.segs, c.a.chunk, 1, r.g)
+         [] c.op = "gc3_segs" -> GcSegsOk(c.a.segs, c.a.chunk, 3, r.g)
          [] c.op = "gc3_rep" -> c.a.reps >= 0 /\ GcRepOk(c.a.unit, c.a.reps, 3, r.g)
          [] OTHER -> FALSE
 
